@@ -83,6 +83,36 @@ class Module:
         return [c for c in self.classes if base in self.mro(c) and c != base]
 
 
+def simple_helper(fn):
+    """a module-level function that is plain arithmetic on its arguments (assignments, conditionals, returns; calls only to numpy
+    ufuncs, to its own parameters or to methods of its parameters): safe to inline. Anything with loops, solvers, I/O stays a call."""
+    params = {a.arg for a in fn.args.args}
+    ok_calls = {"np." + u for u in UFUNC} | {"np.power", "np.square", "np.absolute", "np.where", "np.minimum", "np.maximum", "abs", "min", "max", "float", "np.float64"}
+
+    def stmts(body):
+        for s_ in body:
+            if isinstance(s_, ast.Expr) and isinstance(s_.value, ast.Constant):
+                continue
+            if isinstance(s_, ast.If):
+                if not (stmts(s_.body) and stmts(s_.orelse)):
+                    return False
+                continue
+            if not isinstance(s_, (ast.Assign, ast.AugAssign, ast.Return)):
+                return False
+        return True
+    if not stmts(fn.body):
+        return False
+    for n_ in ast.walk(fn):
+        if isinstance(n_, (ast.ListComp, ast.GeneratorExp, ast.DictComp, ast.Lambda, ast.Subscript)):
+            return False
+        if isinstance(n_, ast.Call):
+            f_ = ast.unparse(n_.func)
+            root = f_.split(".")[0]
+            if not (f_ in ok_calls or root in params):
+                return False
+    return True
+
+
 def tuple_proj(t, i, n):
     """component i of a tuple-valued term (conditionals are distributed)"""
     if t[0] == "tuple":
@@ -128,6 +158,9 @@ class Tr:
                 t = s.targets[0]
                 if isinstance(t, ast.Attribute) and t.attr in self.inputs:
                     continue
+                if isinstance(t, ast.Name):
+                    la = self.__dict__.setdefault("local_ast", {})
+                    la[t.id] = None if (t.id in la and la[t.id] is not None and ast.dump(la[t.id]) != ast.dump(s.value)) else s.value
                 try:
                     v = self.expr(s.value, env, k)
                 except Unsupported as e:
@@ -237,8 +270,17 @@ class Tr:
                         self.notes.append(f"{k}.{fname}: {tg.id} opaque ({e})")
             elif isinstance(s, ast.Assign) and len(s.targets) == 1 and isinstance(s.targets[0], ast.Tuple) and not isinstance(s.value, ast.Tuple) \
                     and getattr(self, "plain_locals", False):
-                for tg in s.targets[0].elts:
-                    env[tg.id] = ("var", tg.id)
+                try:
+                    if isinstance(s.value, ast.Call) and isinstance(s.value.func, ast.Name) and not (
+                            s.value.func.id in self.mod.funcs and simple_helper(self.mod.funcs[s.value.func.id])):
+                        raise Unsupported("results of a non-arithmetic helper stay named inputs")
+                    tv_ = self.expr(s.value, env, k)
+                    vals_ = [tuple_proj(tv_, i_, len(s.targets[0].elts)) for i_ in range(len(s.targets[0].elts))]
+                    for tg, v_ in zip(s.targets[0].elts, vals_):
+                        env[tg.id] = v_
+                except Unsupported:
+                    for tg in s.targets[0].elts:
+                        env[tg.id] = ("var", tg.id)
             elif isinstance(s, ast.Assign) and len(s.targets) == 1 and isinstance(s.targets[0], ast.Tuple) and isinstance(s.value, ast.Tuple):
                 for t, v in zip(s.targets[0].elts, s.value.elts):
                     env[t.id] = self.expr(v, env, k)
@@ -313,7 +355,8 @@ class Tr:
         locals are replaced by their defining expressions, and the spellings `'A_%s' % x`, `'A_{}'.format(x)`, `f'A_{x}'` of one
         string are all written as the f-string — so that such refactors do not rename the opaque variable"""
         import copy as _copy
-        la = {k_: v_ for k_, v_ in self.__dict__.get("local_ast", {}).items() if v_ is not None}
+        la = {k_: v_ for k_, v_ in self.__dict__.get("local_ast", {}).items() if v_ is not None
+              and not (isinstance(v_, ast.Call) and not (isinstance(v_.func, ast.Name) and v_.func.id in ("int", "float", "str", "round", "abs", "bool")))}
 
         class T(ast.NodeTransformer):
             def __init__(s_):
@@ -571,6 +614,31 @@ class Tr:
                     and env[e.func.value.id][0] == "var" and len(e.args) == 1 and not e.keywords:
                 # method of an argument object (e.g. cosmo.Om(z)): opaque external function of one argument
                 return ("call", env[e.func.value.id][1] + "." + e.func.attr, self.expr(e.args[0], env, k))
+            if isinstance(e.func, ast.Name) and e.func.id in env and env[e.func.id][0] == "boundmethod":
+                # a method of self that was passed around as a callable: the call is the method call
+                return self.expr(ast.Call(func=ast.Attribute(value=ast.Name(id="self", ctx=ast.Load()), attr=env[e.func.id][1], ctx=ast.Load()),
+                                          args=e.args, keywords=e.keywords), env, k)
+            if isinstance(e.func, ast.Name) and e.func.id in self.mod.funcs and e.func.id not in env and simple_helper(self.mod.funcs[e.func.id]):
+                # a module-level helper of the same file: inlined like a method (arguments that are methods of self stay callable)
+                fn = self.mod.funcs[e.func.id]
+                env2 = {}
+                for a, d in zip(fn.args.args[len(fn.args.args) - len(fn.args.defaults):], fn.args.defaults):
+                    try:
+                        env2[a.arg] = self.expr(d, {}, k)
+                    except Unsupported:
+                        pass
+
+                def bind_(v_):
+                    if isinstance(v_, ast.Attribute) and isinstance(v_.value, ast.Name) and v_.value.id == "self":
+                        kk_, fm_ = self.mod.find(self.cls, v_.attr)
+                        if fm_ is not None and not fm_.decorator_list:
+                            return ("boundmethod", v_.attr)
+                    return self.expr(v_, env, k)
+                for a, v in zip(fn.args.args, e.args):
+                    env2[a.arg] = bind_(v)
+                for kw in e.keywords:
+                    env2[kw.arg] = bind_(kw.value)
+                return self.func(fn, k, env2)
             if isinstance(e.func, ast.Name) and e.func.id in env and env[e.func.id][0] == "def":
                 fn = env[e.func.id][1]
                 env2 = dict(env)
@@ -884,16 +952,30 @@ def wiring():
                         if isinstance(nm_, ast.Name):
                             cnt_[nm_.id] = cnt_.get(nm_.id, 0) + 2
             argn_ = {x.arg for x in fn.args.args}
-            la_ = {a_.targets[0].id: a_.value for a_ in ast.walk(fn) if isinstance(a_, ast.Assign) and len(a_.targets) == 1 and isinstance(a_.targets[0], ast.Name)
-                   and cnt_.get(a_.targets[0].id) == 1 and a_.targets[0].id not in argn_ and not isinstance(a_.value, ast.Call)}
+            # reaching definition by source order: the last plain assignment `name = <expr>` above the use (expressions that are calls
+            # are kept by name: they are values computed on the spot, not aliases)
+            defs_ = {}
+            for a_ in ast.walk(fn):
+                if isinstance(a_, ast.Assign) and len(a_.targets) == 1 and isinstance(a_.targets[0], ast.Name) and a_.targets[0].id not in argn_:
+                    defs_.setdefault(a_.targets[0].id, []).append((a_.lineno, a_.value))
 
-            def src_(e_, depth=0):
+            def src_(e_, line=None, depth=0):
                 import copy as _copy
+                line = getattr(e_, "lineno", 10 ** 9) if line is None else line
 
                 class T(ast.NodeTransformer):
                     def visit_Name(s_, n_):
-                        if n_.id in la_ and depth < 3:
-                            return ast.parse(src_(la_[n_.id], depth + 1), mode="eval").body
+                        cands = [(l_, v_) for l_, v_ in defs_.get(n_.id, []) if l_ < line]
+                        if cands and depth < 3:
+                            l_, v_ = max(cands, key=lambda c: c[0])
+                            if not isinstance(v_, ast.Call) and cnt_.get(n_.id, 0) <= 2:
+                                return ast.parse(src_(v_, l_, depth + 1), mode="eval").body
+                        return n_
+
+                    def visit_Call(s_, n_):
+                        n_ = s_.generic_visit(n_)
+                        if isinstance(n_.func, ast.Name) and n_.func.id == "super":
+                            n_.args = []          # `super(Class, self)` and `super()` are the same object here
                         return n_
                 return ast.unparse(ast.fix_missing_locations(T().visit(_copy.deepcopy(e_))))
             for n in ast.walk(fn):
